@@ -415,7 +415,17 @@ func (g *gen) op(pool []Recipe, hot []int, fs faultSet, nested bool) Op {
 		if op.M == "AppendJSON" {
 			op.Prefix = r.PickS("", "", "x", `{"k":`, "0123456789abcdef")
 			op.Cap = r.Pick(0, 0, 1, 16, 64, 4096)
+			switch k := r.Intn(100); {
+			case k < 35:
+				op.Reuse = true
+				op.Prefix, op.Cap = "", 0
+			case k < 50:
+				op.Scribble = true
+			}
 		}
+		// (MarshalJSON results are NOT scribbled on: a library may legitimately
+		// hand out a cached, read-only []byte there; AppendJSON's result is the
+		// caller's own extended dst by the append contract.)
 	case w < 66:
 		op.M = mSimple[r.Intn(len(mSimple))]
 	case w < 82 && !nested:
